@@ -367,6 +367,40 @@ func RunOperators(behs [][]Step, tr *Trace, env Env, sum *Summary) {
 					}
 					s.cl[c].Send(authMessage(c, x))
 					s.waitFor(c, func(l []string) bool { return has(l, "authok") || has(l, "autherr") })
+				case "Strangers":
+					// 16 connections nobody knows, each with a first message that is refused, all at the same moment - five rounds
+					kinds := []string{"wrongDigest", "unknownUser", "notJSON", "noPassword", "wrongEvent", "clearPassword", "noInfo", "passwordNotString"}
+					for round := 0; round < 5; round++ {
+						var cls []*world.OpClient
+						for g := 0; g < 16; g++ {
+							cl, err := s.ops.Dial()
+							must(err)
+							cls = append(cls, cl)
+						}
+						start := make(chan struct{})
+						sent := make(chan struct{}, len(cls))
+						for g, cl := range cls {
+							go func(g int, cl *world.OpClient) {
+								<-start
+								cl.Send(authMessage("c1", kinds[g%len(kinds)]))
+								sent <- struct{}{}
+							}(g, cl)
+						}
+						close(start)
+						for range cls {
+							<-sent
+						}
+						time.Sleep(60 * time.Millisecond)
+						for _, cl := range cls {
+							for _, f := range cl.Frames() {
+								if lab := s.label(f); lab != "autherr" {
+									fail("leak", "a refused stranger received "+lab)
+								}
+							}
+							cl.Conn.Close()
+						}
+					}
+					time.Sleep(40 * time.Millisecond)
 				case "FollowUp":
 					s.cl[c].Send(fmt.Sprintf(`{"Head":{"Event":%d,"User":"%s"},"Body":{"SubEvent":%d,"Info":{"User":"%s","Message":"chat999"}}}`, packager.Type.Chat.Type, opUsers[c][0], packager.Type.Chat.NewMessage, opUsers[c][0]))
 					time.Sleep(40 * time.Millisecond)
